@@ -15,6 +15,8 @@ Require Import Fggs.Proofs.SP_mono Fggs.Proofs.Kleene_proofs Fggs.Proofs.Kleene_
                Fggs.Proofs.Kleene_fixpoint Fggs.Proofs.Kleene_check Fggs.Proofs.Kleene_scc.
 Require Import Fggs.Model.Semiring.
 Require Import Fggs.Proofs.SP_trees Fggs.Proofs.Instances_kleene.
+Require Fggs.Model.MultiSolve.
+Require Import Fggs.Proofs.Kleene_linear_lfp Fggs.Proofs.Instances_multisolve.
 Local Open Scope nat_scope.
 
 (** * 1. monotonicity *)
@@ -368,6 +370,127 @@ Theorem C02_rule_affine :
                                (x (fst ed) eta)).
 Proof. exact (@rule_val_affine). Qed.
 Print Assumptions C02_rule_affine.
+
+(** method='linear' (and newton's downgrade to it) returns the LEAST FIXED POINT of the
+    component's equations.  [linear] ends with [return multi_solve(J0, F0)]; composing
+    C02_linear_affine with C09 (C09_multi_solve_refines: the model of multi_solve -- block LU
+    over the present blocks in any elimination order, block back-substitution -- returns the
+    least solution of x = J0 x + F0) gives, in every ordered star-semiring:
+    [J0t]/[F0t] are the MultiTensors built by [linear], i.e. dictionaries of flattened blocks
+    holding [lin_J0]/[lin_F0] at the row-major positions of the index tuples, absent block =
+    zero ([tabulates_J0]/[tabulates_F0], Proofs/Kleene_linear_lfp.v; [lin_dims G comp] gives
+    each nonterminal of the component the number of its index tuples);
+    [env_of_blocks o G comp sol n xi] reads block n of the result at the position of xi.
+    Then the result is a fixed point of the component's equations (nonterminals outside the
+    component read [inp]) and lies below every pre-fixed point. *)
+Theorem C02_linear_is_least_fixed_point :
+  forall R (o : sr_ops R), sr_ring o -> sr_ordered o -> sr_star o ->
+  forall G (w inp : env (R:=R)) comp,
+    wf_grammar G = true -> (forall m, In m comp -> is_term G m = false) ->
+    NoDup comp -> max_rhs G comp <= 1 ->
+  forall (J0t : @MultiSolve.mt2 R) (F0t : @MultiSolve.mt1 R) (order : list nat),
+    tabulates_J0 o G w inp comp J0t -> tabulates_F0 o G w inp comp F0t ->
+    NoDup (map fst J0t) -> NoDup (map fst F0t) ->
+    NoDup order -> (forall n, In n order <-> In n comp) ->
+    let sol := MultiSolve.multi_solve_model o (lin_dims G comp) order false J0t F0t in
+    (forall n xi, In n comp -> In xi (all_assts (lshape G n)) ->
+       step o G w (fun l => if mem comp l then env_of_blocks o G comp sol l else inp l) n xi
+       = env_of_blocks o G comp sol n xi)
+    /\ (forall v : env (R:=R),
+          (forall n xi, In n comp -> In xi (all_assts (lshape G n)) ->
+             le o (step o G w (fun l => if mem comp l then v l else inp l) n xi) (v n xi)) ->
+          forall n xi, In n comp -> In xi (all_assts (lshape G n)) ->
+             le o (env_of_blocks o G comp sol n xi) (v n xi)).
+Proof. exact (@linear_is_lfp_any_order). Qed.
+Print Assumptions C02_linear_is_least_fixed_point.
+
+(** the same with the elimination order multi_solve computes itself (the model of
+    [_order_nonterminals], for every iteration order [iter] of Python's sets; a J0 without any
+    block gives the order [] and the result F0) *)
+Theorem C02_linear_is_least_fixed_point_code_order :
+  forall R (o : sr_ops R), sr_ring o -> sr_ordered o -> sr_star o ->
+  forall G (w inp : env (R:=R)) comp,
+    wf_grammar G = true -> (forall m, In m comp -> is_term G m = false) ->
+    NoDup comp -> max_rhs G comp <= 1 ->
+  forall (iter : list nat -> list nat) (J0t : @MultiSolve.mt2 R) (F0t : @MultiSolve.mt1 R) (order : list nat),
+    (forall s x, In x (iter s) -> In x s) -> (forall s x, In x s -> In x (iter s)) ->
+    (forall s, NoDup s -> NoDup (iter s)) ->
+    tabulates_J0 o G w inp comp J0t -> tabulates_F0 o G w inp comp F0t ->
+    NoDup (map fst J0t) -> NoDup (map fst F0t) ->
+    (forall e, In e (map fst J0t) -> In (snd e) comp) ->
+    MultiSolve.order_nonterminals_model iter (map fst J0t) comp = Some order ->
+    let sol := MultiSolve.multi_solve_model o (lin_dims G comp) order false J0t F0t in
+    (forall n xi, In n comp -> In xi (all_assts (lshape G n)) ->
+       step o G w (fun l => if mem comp l then env_of_blocks o G comp sol l else inp l) n xi
+       = env_of_blocks o G comp sol n xi)
+    /\ (forall v : env (R:=R),
+          (forall n xi, In n comp -> In xi (all_assts (lshape G n)) ->
+             le o (step o G w (fun l => if mem comp l then v l else inp l) n xi) (v n xi)) ->
+          forall n xi, In n comp -> In xi (all_assts (lshape G n)) ->
+             le o (env_of_blocks o G comp sol n xi) (v n xi)).
+Proof. exact (@linear_is_lfp_code_order). Qed.
+Print Assumptions C02_linear_is_least_fixed_point_code_order.
+
+(** carrier instances (Bool, Real/Log, Viterbi); no law premises *)
+Theorem C02_linear_is_least_fixed_point_bool :
+  forall G (w inp : env (R:=bool)) comp,
+    wf_grammar G = true -> (forall m, In m comp -> is_term G m = false) ->
+    NoDup comp -> max_rhs G comp <= 1 ->
+  forall (J0t : @MultiSolve.mt2 bool) (F0t : @MultiSolve.mt1 bool) (order : list nat),
+    tabulates_J0 bool_ops G w inp comp J0t -> tabulates_F0 bool_ops G w inp comp F0t ->
+    NoDup (map fst J0t) -> NoDup (map fst F0t) ->
+    NoDup order -> (forall n, In n order <-> In n comp) ->
+    let sol := MultiSolve.multi_solve_model bool_ops (lin_dims G comp) order false J0t F0t in
+    (forall n xi, In n comp -> In xi (all_assts (lshape G n)) ->
+       step bool_ops G w (fun l => if mem comp l then env_of_blocks bool_ops G comp sol l else inp l) n xi
+       = env_of_blocks bool_ops G comp sol n xi)
+    /\ (forall v : env (R:=bool),
+          (forall n xi, In n comp -> In xi (all_assts (lshape G n)) ->
+             le bool_ops (step bool_ops G w (fun l => if mem comp l then v l else inp l) n xi) (v n xi)) ->
+          forall n xi, In n comp -> In xi (all_assts (lshape G n)) ->
+             le bool_ops (env_of_blocks bool_ops G comp sol n xi) (v n xi)).
+Proof. exact bool_linear_is_lfp_any_order. Qed.
+Print Assumptions C02_linear_is_least_fixed_point_bool.
+
+Theorem C02_linear_is_least_fixed_point_real :
+  forall G (w inp : env (R:=ereal)) comp,
+    wf_grammar G = true -> (forall m, In m comp -> is_term G m = false) ->
+    NoDup comp -> max_rhs G comp <= 1 ->
+  forall (J0t : @MultiSolve.mt2 ereal) (F0t : @MultiSolve.mt1 ereal) (order : list nat),
+    tabulates_J0 ereal_ops G w inp comp J0t -> tabulates_F0 ereal_ops G w inp comp F0t ->
+    NoDup (map fst J0t) -> NoDup (map fst F0t) ->
+    NoDup order -> (forall n, In n order <-> In n comp) ->
+    let sol := MultiSolve.multi_solve_model ereal_ops (lin_dims G comp) order false J0t F0t in
+    (forall n xi, In n comp -> In xi (all_assts (lshape G n)) ->
+       step ereal_ops G w (fun l => if mem comp l then env_of_blocks ereal_ops G comp sol l else inp l) n xi
+       = env_of_blocks ereal_ops G comp sol n xi)
+    /\ (forall v : env (R:=ereal),
+          (forall n xi, In n comp -> In xi (all_assts (lshape G n)) ->
+             ele (step ereal_ops G w (fun l => if mem comp l then v l else inp l) n xi) (v n xi)) ->
+          forall n xi, In n comp -> In xi (all_assts (lshape G n)) ->
+             ele (env_of_blocks ereal_ops G comp sol n xi) (v n xi)).
+Proof. exact real_linear_is_lfp_any_order. Qed.
+Print Assumptions C02_linear_is_least_fixed_point_real.
+
+Theorem C02_linear_is_least_fixed_point_viterbi :
+  forall G (w inp : env (R:=trop)) comp,
+    wf_grammar G = true -> (forall m, In m comp -> is_term G m = false) ->
+    NoDup comp -> max_rhs G comp <= 1 ->
+  forall (J0t : @MultiSolve.mt2 trop) (F0t : @MultiSolve.mt1 trop) (order : list nat),
+    tabulates_J0 trop_ops G w inp comp J0t -> tabulates_F0 trop_ops G w inp comp F0t ->
+    NoDup (map fst J0t) -> NoDup (map fst F0t) ->
+    NoDup order -> (forall n, In n order <-> In n comp) ->
+    let sol := MultiSolve.multi_solve_model trop_ops (lin_dims G comp) order false J0t F0t in
+    (forall n xi, In n comp -> In xi (all_assts (lshape G n)) ->
+       step trop_ops G w (fun l => if mem comp l then env_of_blocks trop_ops G comp sol l else inp l) n xi
+       = env_of_blocks trop_ops G comp sol n xi)
+    /\ (forall v : env (R:=trop),
+          (forall n xi, In n comp -> In xi (all_assts (lshape G n)) ->
+             tle (step trop_ops G w (fun l => if mem comp l then v l else inp l) n xi) (v n xi)) ->
+          forall n xi, In n comp -> In xi (all_assts (lshape G n)) ->
+             tle (env_of_blocks trop_ops G comp sol n xi) (v n xi)).
+Proof. exact trop_linear_is_lfp_any_order. Qed.
+Print Assumptions C02_linear_is_least_fixed_point_viterbi.
 
 (** * 6. the loop of fixed_point on the grammar's equations; what the check's verdict 0 means *)
 (** [env_le_on o G x y] / [env_eq_on G x y] (Proofs/SP_mono.v): x <= y / x = y at every
